@@ -62,9 +62,13 @@ class ESSearchHedge:
         self.prob = self.prob * (1 - self.n_funs * self.gamma) + self.gamma
 
         rand_uni = np.random.rand()
-        self.chosen_hedge = np.argwhere(rand_uni < np.cumsum(self.prob))[0]
+        self.chosen_hedge = np.argwhere(rand_uni < np.cumsum(self.prob))
         if len(self.chosen_hedge) == 0:
-            self.chosen_hedge = np.random.randint(0, self.n_funs)
+            # (round-off: the cumulative sum can end a bit below 1, and
+            # rand_uni at or above it belongs to the last strategy)
+            self.chosen_hedge = np.array([self.n_funs - 1])
+        else:
+            self.chosen_hedge = self.chosen_hedge[0]
 
         if self.gamma == 0:
             self.phat = np.ones(self.g.shape)
